@@ -344,7 +344,11 @@ func (g *G) retractTemplate(p *grl.Program, facts *grl.Facts) bool {
 
 // naturalAction returns an action that fails on most fact states (C14 natural action faults).
 func (g *G) naturalAction() *grl.Action {
-	switch g.R.Intn(8) {
+	switch g.R.Intn(10) {
+	case 8:
+		return &grl.Action{K: "assign", Path: grl.P("F.A").Idx(grl.PathE(grl.P("F.S2"))), Op: "=", E: grl.LitInt(99)} // string selector on a slice
+	case 9:
+		return &grl.Action{K: "assign", Path: grl.P("F.A").Idx(grl.LitStr("first")), Op: "=", E: grl.LitInt(98)}
 	case 6:
 		return &grl.Action{K: "assign", Path: grl.P("F.I"), Op: "=", E: &grl.Expr{K: "call", Path: grl.P("G"), Fn: "Boom", Args: []*grl.Expr{grl.LitInt(3)}}}
 	case 7:
@@ -407,7 +411,11 @@ func (g *G) applyTemplate(property string, p *grl.Program, facts *grl.Facts) str
 			return "retract"
 		}
 	case "C14", "C15":
-		switch g.R.Intn(3) {
+		switch g.R.Intn(4) {
+		case 3:
+			if property == "C14" && g.repairTemplate(p, facts) {
+				return "repair"
+			}
 		case 0:
 			if g.flipTemplate(p, facts, g.R.Chance(1, 2)) {
 				return "flip"
@@ -526,6 +534,37 @@ func (g *G) selectorTemplate(p *grl.Program, facts *grl.Facts) bool {
 	} else {
 		rb.Then[0].E = grl.LitInt(1)
 	}
+	p.Rules = append(p.Rules, ra, rb)
+	return true
+}
+
+
+// repairTemplate (C14): rule A's condition cannot be evaluated at first (missing map key, nil
+// nested pointer); rule B repairs the facts; from the next cycle on A must be judged like any rule.
+func (g *G) repairTemplate(p *grl.Program, facts *grl.Facts) bool {
+	f := g.R.PickStr("F", "G")
+	var broken *grl.Expr
+	var repair *grl.Action
+	switch g.R.Intn(3) {
+	case 0:
+		key := "kx"
+		broken = grl.Bin(">=", grl.PathE(grl.P(f+".M").Idx(grl.LitStr(key))), grl.LitInt(0))
+		repair = &grl.Action{K: "assign", Path: grl.P(f + ".M").Idx(grl.LitStr(key)), Op: "=", E: grl.LitInt(g.R.PickInt64(0, 5))}
+	case 1:
+		if g.R.Chance(1, 2) {
+			facts.F.P, facts.G.P = nil, nil
+		}
+		broken = grl.Bin(">=", grl.PathE(grl.P(f+".P.X")), grl.LitInt(0-1000))
+		repair = &grl.Action{K: "assign", Path: grl.P(f + ".P"), Op: "=", E: grl.PathE(grl.P(f + ".P2"))}
+	default:
+		key := "ky"
+		broken = grl.Bin("!=", grl.PathE(grl.P(f+".MS").Idx(grl.LitStr(key))), grl.LitStr("never"))
+		repair = &grl.Action{K: "assign", Path: grl.P(f + ".MS").Idx(grl.LitStr(key)), Op: "=", E: grl.LitStr("now")}
+	}
+	ra := &grl.Rule{Name: "Pa", Salience: sal(g.R.PickInt64(-1, 0, 1)), When: broken,
+		Then: []*grl.Action{g.assign(g.destPath()), {K: "retract", Name: "Pa"}}}
+	rb := &grl.Rule{Name: "Pb", Salience: sal(g.R.PickInt64(0, 1, 5)), When: grl.LitBool(true),
+		Then: []*grl.Action{repair, {K: "retract", Name: "Pb"}}}
 	p.Rules = append(p.Rules, ra, rb)
 	return true
 }
